@@ -18,7 +18,7 @@ import threading
 from corr import logix_common as lc
 from corr import c08_wire as w
 
-STEP_A, STEP_B = 120, 6000          # steps <= STEP_A * bytes + STEP_B   (calibrated: see notes/C08.md)
+STEP_A, STEP_B = 64, 2000            # steps <= STEP_A * bytes + STEP_B   (measured: <= 40*len on 8000 thorough cases; see notes/C08.md)
 HANG_FACTOR = 40                    # abort (and report) beyond HANG_FACTOR * (STEP_A * bytes + STEP_B)
 
 
@@ -27,6 +27,8 @@ class Hang(BaseException):
 
 
 class Counter:
+    runs = 0
+    nodes = frozenset()
     seq = 0
     count = 0
     budget = None
@@ -40,6 +42,8 @@ def install_counter():
     orig = automata.state.run
 
     def run(self, *a, **k):
+        if id(self) in Counter.nodes:
+            Counter.runs += 1
         for ev in orig(self, *a, **k):
             Counter.count += 1
             if Counter.budget is not None and Counter.count > Counter.budget:
@@ -240,3 +244,40 @@ def cip_of_reply(frame):
     if count != 2 or t1 != 0xb2:
         return None
     return pl[16:16 + l1]
+
+
+def run_engine(case):
+    """a `cpppo.dfa` of plain `state` / consuming `state_drop` nodes built from the case's table, run over the
+    input by the real engine -> "<state runs>:<symbols sent>:<ok|nonterminal|assert>" """
+    import cpppo
+    from cpppo import automata
+    logging.disable(logging.CRITICAL)
+    install_counter()
+    kinds, term, edges, inp = case["kinds"], case["terminal"], case["edges"], bytes.fromhex(case["input"])
+    nodes = []
+    for i, k in enumerate(kinds):
+        if k == "c":
+            nodes.append(cpppo.state_drop("s%d" % i, alphabet=int, terminal=term[i] == "1"))
+        else:
+            nodes.append(cpppo.state("s%d" % i, terminal=term[i] == "1"))
+    for s, sym, t in edges:
+        nodes[s][True if sym == "*" else (None if sym == "-" else sym)] = nodes[t]
+    m = cpppo.dfa("m", initial=nodes[0], terminal=True)
+    src = cpppo.peekable(inp)
+    out = "ok"
+    Counter.runs = 0
+    Counter.count = 0
+    Counter.nodes = frozenset(id(n) for n in nodes)
+    Counter.budget = 5000 * (len(kinds) + 1) * (len(inp) + 2)
+    try:
+        with m:
+            for _ in m.run(source=src, data=cpppo.dotdict()):
+                pass
+    except automata.NonTerminal:
+        out = "nonterminal"
+    except AssertionError:
+        out = "assert"
+    finally:
+        Counter.budget = None
+        Counter.nodes = frozenset()
+    return "%d:%d:%s" % (Counter.runs, src.sent, out)
